@@ -400,6 +400,9 @@ func RenderAnswer(act FakeAction, method string, id, params json.RawMessage) str
 			code = -32000
 		}
 		return fmt.Sprintf(`{"jsonrpc":"2.0","id":%s,"error":{"code":%d,"message":"scripted failure"}}`, id, code)
+	case "rpc-error-0":
+		// an error object whose code is 0 (the member is there; no range is reserved for "not an error")
+		return fmt.Sprintf(`{"jsonrpc":"2.0","id":%s,"error":{"code":0,"message":"scripted failure with code 0"}}`, id)
 	case "malformed":
 		return fmt.Sprintf(`{"jsonrpc":"2.0","id":%s,"result":"this is not an object"}`, id)
 	case "raw":
